@@ -1425,11 +1425,13 @@ class NLDFAuxiliaryPlan(ABC):
             self._raise_large_expnt_error = False
         else:
             self._raise_large_expnt_error = raise_large_expnt_error
+        self._raise_large_expnt_error_input = raise_large_expnt_error
         self._use_smooth_expnt_cutoff = use_smooth_expnt_cutoff
         self._run_setup()
 
-    def new(self, **kwargs):
-        new_kwargs = dict(
+    def _get_init_kwargs(self):
+        """Constructor arguments that reproduce this plan."""
+        return dict(
             nldf_settings=self.nldf_settings,
             nspin=self.nspin,
             alpha0=self._alpha0_input,
@@ -1440,7 +1442,12 @@ class NLDFAuxiliaryPlan(ABC):
             proc_inds=self.proc_inds,
             rhocut=self._rhocut_input,
             expcut=self.expcut,
+            raise_large_expnt_error=self._raise_large_expnt_error_input,
+            use_smooth_expnt_cutoff=self._use_smooth_expnt_cutoff,
         )
+
+    def new(self, **kwargs):
+        new_kwargs = self._get_init_kwargs()
         new_kwargs.update(kwargs)
         return self.__class__(**new_kwargs)
 
@@ -2055,6 +2062,7 @@ class NLDFSplinePlan(NLDFAuxiliaryPlan):
         raise_large_expnt_error=True,
         use_smooth_expnt_cutoff=False,
     ):
+        self._spline_size_input = spline_size
         self._spline_size = nalpha if spline_size is None else spline_size
         self._local_alpha_transform = None
         super(NLDFSplinePlan, self).__init__(
@@ -2071,6 +2079,12 @@ class NLDFSplinePlan(NLDFAuxiliaryPlan):
             raise_large_expnt_error=raise_large_expnt_error,
             use_smooth_expnt_cutoff=use_smooth_expnt_cutoff,
         )
+
+    def _get_init_kwargs(self):
+        kwargs = super(NLDFSplinePlan, self)._get_init_kwargs()
+        # None means "same as nalpha", also for a new() with another nalpha
+        kwargs["spline_size"] = self._spline_size_input
+        return kwargs
 
     def _run_setup(self):
         ovlp, _ = _get_ovlp_fit_interpolation_coefficients(
